@@ -488,6 +488,13 @@ def run(ctx):
         if x0.kind != 'value':
             return
         x = x0.val
+        image = {cabc.Sequence: tuple, t.Sequence: tuple, cabc.MutableSequence: list, t.MutableSequence: list, list: list, tuple: tuple, t.List: list, t.Tuple: tuple,
+                 collections.deque: collections.deque, cabc.Mapping: dict, t.Mapping: dict, cabc.MutableMapping: dict, dict: dict, t.Dict: dict,
+                 collections.OrderedDict: collections.OrderedDict, set: set, frozenset: frozenset, cabc.Set: frozenset, t.FrozenSet: frozenset}[BT]
+        if type(x) is not image:
+            ctx.violation('round-trip', 'bare', i, {'type': str(BT), 'data': short(v, 150), 'from_data': x0.brief(), 'documented_image': image.__name__},
+                          mech='bare-container-type-image-differs')
+            return
         for fmt in ('json', 'yaml'):
             path = fresh(fmt)
             del OPENED[:]
